@@ -39,8 +39,7 @@ theorem planSt_ref : (t : Ty) → ∀ (v : HVal) (st : St) (k : Nat) (o : Obj), 
       simp only [buildPure, Bool.false_eq_true, if_false, pureTasks_stFL w _ t xs os (denoteL_length h3)]
       rfl
     · simp only [h1]
-      rw [stF_coll_none w _ sk t h2]
-      exact exec_noItems_ref w _ rec v st g _ _
+      exact exec_noItems_ref w _ rec v st g _ hdn (fun hl => stF_coll_none w _ sk t h2 hl) _
   | .tupleHet ts, v, st, k, o, g, hv, hp, hdn, hk, hl => by
     simp only [planSt]
     rcases iter_cases g hv hp hdn with ⟨xs, os, k', h1, h2, rfl, h3, h4⟩ | ⟨h1, h2⟩
@@ -53,8 +52,7 @@ theorem planSt_ref : (t : Ty) → ∀ (v : HVal) (st : St) (k : Nat) (o : Obj), 
       rw [stF_tuple_some w _ ts h2]
       exact buildPure_tuple w _ _ ts xs os (denoteL_length h3) (.coll .tuple) (fun ps => rfl)
     · simp only [h1]
-      rw [stF_tuple_none w _ ts h2]
-      exact exec_noItems_ref w _ rec v st g _ _
+      exact exec_noItems_ref w _ rec v st g _ hdn (fun hl => stF_tuple_none w _ ts h2 hl) _
   | .nt c, v, st, k, o, g, hv, hp, hdn, hk, _ => by
     simp only [planSt]
     rcases iter_cases g hv hp hdn with ⟨xs, os, k', h1, h2, rfl, h3, h4⟩ | ⟨h1, h2⟩
@@ -71,14 +69,17 @@ theorem planSt_ref : (t : Ty) → ∀ (v : HVal) (st : St) (k : Nat) (o : Obj), 
           (fun t' ht => h4 _ (zipTasks_args ht)) (tasksDen_zip (w.ntTys c) xs os (litLeafL_ntTys hw c) h3)
         refine ((this.mono (by omega)).weaken (fun _ _ _ => trivial)).pure_eq ?_
         exact buildPure_tuple w _ _ (w.ntTys c) xs os (denoteL_length h3) (ntMk w c) (fun ps => rfl)
-    · rw [stF_nt_none w _ c h2]
-      cases hnt : w.isNT c with
+    · cases hnt : w.isNT c with
       | false =>
+        have hno : stF w hc.cfg.core (.nt c) o = none := by
+          rw [CattrsModel.stF_nt_none w _ h2]; unfold leafFuel; rw [Leaf.stLF_nt_succ]
+          cases leafItems o <;> simp [hnt]
+        rw [hno]
         simp only [Bool.false_eq_true, if_false]
         exact exec_fail_ref w _ rec st g _ _
       | true =>
         simp only [if_true, h1]
-        exact exec_noItems_ref w _ rec v st g _ _
+        exact exec_noItems_ref w _ rec v st g _ hdn (fun hl => stF_nt_none w _ c h2 hl) _
   | .map mk kt vt, v, st, k, o, g, hv, hp, hdn, hk, hl => by
     rcases dict_cases g hv hp hdn with ⟨l, kvs, okvs, k', rfl, _, h1, rfl, rfl, h3, h4⟩ | ⟨h1, h2⟩
     · simp only [h1, planSt]
@@ -95,7 +96,7 @@ theorem planSt_ref : (t : Ty) → ∀ (v : HVal) (st : St) (k : Nat) (o : Obj), 
     · rw [stF_map_nondict w _ mk kt vt h2]
       rcases viewOf_nondict_cases h1 with hvw | ⟨c, hvw, hc'⟩
       · rw [hvw]; simp only [planSt]
-        exact exec_noItems_ref w _ rec v st g _ _
+        exact exec_noItems_ref w _ rec v st g _ hdn (fun _ => rfl) _
       · rw [hvw]
         cases c with
         | dict kvs => exact absurd rfl (hc' kvs)
